@@ -1,6 +1,31 @@
 //@ unit err_pos
 //@ serves C17
-//@ must_verify Error::new Error::with_pos Error::push_call_stack decorate_error_contract decorate_call_contract DisplayError::fmt FromRegex::from FromIo::from FromBuild::from FromConv::from q_regex q_io q_conv OpPointer::pos OpPointer::jump OpPointer::idx VM::push VM::pop VM::mul VM::div VM::sub VM::modulus VM::add VM::op_mod VM::op_sub VM::op_mul VM::op_div VM::op_add VM::op_gt VM::op_lt VM::op_gteq VM::op_lteq VM::op_equal VM::op_not VM::op_jump VM::op_and VM::op_or VM::op_jump_if_true VM::op_jump_if_false VM::op_select_jump VM::op_bang VM::get_binding VM::op_deref VM::binding_push VM::op_bind VM::op_index VM::merge_field_into_tuple VM::op_field VM::op_element VM::do_cast VM::op_cast VM::fcall_impl VM::op_fcall VM::op_new_scope VM::op_copy VM::op_typ VM::op_render VM::op_thunk VM::op_push_self VM::op_pop_self VM::op_exist VM::op_func VM::op_module VM::op_check_constraint Builtins::regex Builtins::range Builtins::get_file_as_string Builtins::get_file_as_bytes Builtins::include Builtins::handle VM::op_runtime
+// C17 (narrow kernel, first half) - the position plumbing of RUN-TIME errors in the opcode VM.  Real code, verbatim:
+//   error.rs   struct Error, Error::new / with_pos / push_call_stack, decorate_error!, decorate_call!, the four `From` impls,
+//              Display (what `ucg build` prints: primary position first, then one VIA line per call site in push order);
+//   pointer.rs OpPointer::pos / jump / idx;
+//   vm.rs      every handler VM::run dispatches to except op_build_constraint (assumed): arithmetic (+ VM::add / sub / mul /
+//              div / modulus), comparisons, `==`, not, && / ||, conditional jumps, select, fail, deref / get_binding,
+//              bind / binding_push, index, field / element / merge_field_into_tuple, copy and module call (whole op_copy),
+//              cast / do_cast, fcall / fcall_impl, new_scope, typ, render, thunk, push_self / pop_self, exist, func,
+//              module, check_constraint, runtime;
+//   runtime.rs Builtins::handle and the hooks regex, range, include (+ get_file_as_string / _bytes), map, filter, reduce.
+// ONE contract shape per handler:  r matches Err(e) ==> e.pos == Some(<the position the source names: the `pos` argument
+// = the position stored with the op (unit err_pos_run), or the position an operand was pushed with>) and no call sites;
+// r is Ok ==> the value pushed carries <the op's position or an operand's> - never a default `Position::new(0, 0, 0)`,
+// never a position from inside a callee.  Calls: a callee's error keeps its position and gets the call site appended.
+// Nested interpreter runs (`VM::run` inside fcall_impl / op_copy / op_new_scope) are ASSUMED to return positioned errors;
+// unit err_pos_run proves that of `run` from the handler contracts proved here (assume / guarantee).
+// GENUINE DEFECTS of the pinned tree found by these contracts (reproduced on the real binary, fixed in the worktree,
+// /scratch/patches/err_pos_<n>.patch; on the unfixed tree Builtins::regex, Builtins::include and VM::op_copy are VIOLATIONS):
+//   1. `"abc" ~ "("`: the regex crate's error is converted by `?` (From<regex::Error>: pos None) and never decorated:
+//      the diagnostic has NO position at all.
+//   2. `include str "missing.txt"` (and every other include type): same with the io::Error of the unreadable file.
+//   3. `10 / m{x=0}` where m is a module with an out-expression: op_copy pushed the module's result with the position
+//      popped from the module's own VM - a position INSIDE THE MODULE DEFINITION - so a later fault on that value
+//      (division by zero, failed cast, ...) is reported at the module definition, a different statement.
+//   4. a fault inside a module's out-expression was not given the calling statement as VIA (the module BODY was).
+//@ must_verify Error::new Error::with_pos Error::push_call_stack decorate_error_contract decorate_call_contract DisplayError::fmt FromRegex::from FromIo::from FromBuild::from FromConv::from q_regex q_io q_conv OpPointer::pos OpPointer::jump OpPointer::idx VM::push VM::pop VM::mul VM::div VM::sub VM::modulus VM::add VM::op_mod VM::op_sub VM::op_mul VM::op_div VM::op_add VM::op_gt VM::op_lt VM::op_gteq VM::op_lteq VM::op_equal VM::op_not VM::op_jump VM::op_and VM::op_or VM::op_jump_if_true VM::op_jump_if_false VM::op_select_jump VM::op_bang VM::get_binding VM::op_deref VM::binding_push VM::op_bind VM::op_index VM::merge_field_into_tuple VM::op_field VM::op_element VM::do_cast VM::op_cast VM::fcall_impl VM::op_fcall VM::op_new_scope VM::op_copy VM::op_typ VM::op_render VM::op_thunk VM::op_push_self VM::op_pop_self VM::op_exist VM::op_func VM::op_module VM::op_check_constraint Builtins::regex Builtins::range Builtins::get_file_as_string Builtins::get_file_as_bytes Builtins::include Builtins::map Builtins::filter Builtins::reduce Builtins::handle VM::op_runtime
 //@ include prelude/head.rs
 use std::rc::Rc;
 
@@ -1285,7 +1310,8 @@ pub fn verif_str_eq(a: &str, b: &str) -> (r: bool) ensures r == (a@ == b@) { a =
 
 // The hooks NOT under contract here (import: unit import_hook; assert: assert_hook; convert / out: out_hook; trace) -
 // ASSUMED from reading, listed in notes/C17.json: each raises only `Error::new(.., <pos or an operand's position>)`,
-// lets a nested run's error through unchanged (import), or - `out` only - an io::Error of creating / writing the artifact.
+// decorates what `get_ops_for_path` reports with the import's position and lets a nested run's error through unchanged
+// (import), or - `out` only - lets an io::Error of creating / writing the artifact through (environment, see env_ok).
 //@ extract src/build/opcode/runtime.rs :: impl Builtins :: fn import
 //@   opaque_body
 //@   ret r
@@ -1322,33 +1348,111 @@ pub fn verif_str_eq(a: &str, b: &str) -> (r: bool) ensures r == (a@ == b@) { a =
         ensures r matches Err(e) ==> positioned(e)
 //@   >>>
 //@ end
-// map / filter / reduce (unit rt_funcs): a fault inside the function keeps its position and gets the position of the
-// map / filter / reduce expression listed as call site; their own complaints are at the function operand, at the
-// function's result, or at the expression
+// ---------- map / filter / reduce: a fault inside the function keeps its position and gets the position of the
+// map / filter / reduce expression listed as call site; their own complaints (raised with no call site) are at the
+// function operand, at the function's result, or at the expression ----------
+pub open spec fn wf_top(v: Value) -> bool {
+    match v { C(List(elems, pos)) => pos@.len() == elems@.len(), C(Tuple(flds, pos)) => pos@.len() == flds@.len(), _ => true }
+}
+pub open spec fn functional_err(e: Error, pos: Position) -> bool {
+    positioned(e) && (e.call_stack@.len() > 0 ==> e.call_stack@.last() == pos)
+}
+impl VIntoRcStr for String {
+    open spec fn v_text(&self) -> Seq<char> { self@ }
+    fn v_into(self) -> (r: Rc<str>) { verif_string_into_rcstr(self) }
+}
+pub mod strax {
+    use super::*;
+    // `char::to_string()` is the one-character string (std Display for char)
+    pub broadcast axiom fn axiom_char_to_string(c: char, s: String)
+        ensures #[trigger] vstd::string::to_string_from_display_ensures::<char>(&c, s) ==> s@ == seq![c];
+}
 //@ extract src/build/opcode/runtime.rs :: impl Builtins :: fn map
-//@   opaque_body
+//@   rule R1 R3
+//@   subst all ".into()" => ".v_into()"
+//@   subst "match *list.as_ref() {" => "match list.as_ref() {"
+//@   subst "let mut result_elems = Vec::new();" => "let mut result_elems: Vec<Rc<Value>> = Vec::new();"
+//@   subst "let mut pos_elems = Vec::new();" => "let mut pos_elems: Vec<Position> = Vec::new();"
+//@   subst "let mut new_fields = Vec::new();" => "let mut new_fields: Vec<(Rc<str>, Rc<Value>)> = Vec::new();"
+//@   subst "let mut new_flds_pos_list = Vec::new();" => "let mut new_flds_pos_list: Vec<(Position, Position)> = Vec::new();"
 //@   ret r
 //@   sig <<<
-        ensures env_ok() ==> (r matches Err(e) ==> positioned(e))
+        requires old(stack)@.len() >= 2, wf_top(*old(stack)@[old(stack)@.len() - 1].0),
+        ensures env_ok() ==> (r matches Err(e) ==> functional_err(e, pos)),
 //@   >>>
+//@   loop 1 indexed <<<
+                    invariant i__1 <= it__1@.len(), it__1@ == elems@, elems_pos_list@.len() == elems@.len(), f.bindings@.len() == 1,
+                    decreases it__1@.len() - i__1
+//@   >>>
+//@   loop 2 indexed <<<
+                    invariant i__2 <= it__2@.len(), it__2@ == flds@, flds_pos_list@.len() == flds@.len(), f.bindings@.len() == 2,
+                    decreases it__2@.len() - i__2
+//@   >>>
+//@   loop 3 indexed <<<
+                    invariant i__3 <= it__3@.len(), f.bindings@.len() == 1,
+                    decreases it__3@.len() - i__3
+//@   >>>
+//@   mutant map_call_site_not_recorded "let (result, result_pos) = decorate_call!(pos => VM::fcall_impl(f, self.strict, stack, env, import_stack))?; pos_elems.push(result_pos);" => "let (result, result_pos) = VM::fcall_impl(f, self.strict, stack, env, import_stack)?; pos_elems.push(result_pos);" expect map
 //@ end
 //@ extract src/build/opcode/runtime.rs :: impl Builtins :: fn filter
-//@   opaque_body
+//@   rule R1 R3
+//@   subst all ".into()" => ".v_into()"
+//@   subst "match *list.as_ref() {" => "match list.as_ref() {"
+//@   subst "let mut result_elems = Vec::new();" => "let mut result_elems: Vec<Rc<Value>> = Vec::new();"
+//@   subst "let mut pos_elems = Vec::new();" => "let mut pos_elems: Vec<Position> = Vec::new();"
+//@   subst "let mut new_fields = Vec::new();" => "let mut new_fields: Vec<(Rc<str>, Rc<Value>)> = Vec::new();"
+//@   subst "let mut new_flds_pos_list = Vec::new();" => "let mut new_flds_pos_list: Vec<(Position, Position)> = Vec::new();"
 //@   ret r
 //@   sig <<<
-        ensures env_ok() ==> (r matches Err(e) ==> positioned(e))
+        requires old(stack)@.len() >= 2, wf_top(*old(stack)@[old(stack)@.len() - 1].0),
+        ensures env_ok() ==> (r matches Err(e) ==> functional_err(e, pos)),
+//@   >>>
+//@   loop 1 indexed <<<
+                    invariant i__1 <= it__1@.len(), it__1@ == elems@, elems_pos_list@.len() == elems@.len(), f.bindings@.len() == 1,
+                    decreases it__1@.len() - i__1
+//@   >>>
+//@   loop 2 indexed <<<
+                    invariant i__2 <= it__2@.len(), it__2@ == flds@, pos_list@.len() == flds@.len(), f.bindings@.len() == 2,
+                    decreases it__2@.len() - i__2
+//@   >>>
+//@   loop 3 indexed <<<
+                    invariant i__3 <= it__3@.len(), f.bindings@.len() == 1,
+                    decreases it__3@.len() - i__3
 //@   >>>
 //@ end
 //@ extract src/build/opcode/runtime.rs :: impl Builtins :: fn reduce
-//@   opaque_body
+//@   rule R1 R3
+//@   subst all ".into()" => ".v_into()"
+//@   subst "match *list.as_ref() {" => "match list.as_ref() {"
 //@   ret r
 //@   sig <<<
-        ensures env_ok() ==> (r matches Err(e) ==> positioned(e))
+        requires old(stack)@.len() >= 3, wf_top(*old(stack)@[old(stack)@.len() - 1].0),
+        ensures env_ok() ==> (r matches Err(e) ==> functional_err(e, pos)),
+            r is Ok ==> final(stack)@.len() > 0 && final(stack)@.last().1 == pos,
 //@   >>>
+//@   loop 1 indexed <<<
+                    invariant i__1 <= it__1@.len(), it__1@ == elems@, elems_pos_list@.len() == elems@.len(), f.bindings@.len() == 2,
+                    decreases it__1@.len() - i__1
+//@   >>>
+//@   loop 2 indexed <<<
+                    invariant i__2 <= it__2@.len(), it__2@ == _flds@, flds_pos_list@.len() == _flds@.len(), f.bindings@.len() == 3,
+                    decreases it__2@.len() - i__2
+//@   >>>
+//@   loop 3 indexed <<<
+                    invariant i__3 <= it__3@.len(), f.bindings@.len() == 2,
+                    decreases it__3@.len() - i__3
+//@   >>>
+//@   mutant reduce_call_site_replaces_position "let (new_acc, new_acc_pos) = decorate_call!(pos => VM::fcall_impl(f, self.strict, stack, env, import_stack))?; acc = new_acc; acc_pos = new_acc_pos; } } C(Tuple" => "let (new_acc, new_acc_pos) = decorate_error!(pos => VM::fcall_impl(f, self.strict, stack, env, import_stack))?; acc = new_acc; acc_pos = new_acc_pos; } } C(Tuple" expect reduce
 //@ end
 pub open spec fn hook_pre(h: Hook, st: Seq<(Rc<Value>, Position)>) -> bool {
     // translator invariant (else the hooks panic!, C04): the operands of the hook were pushed
-    match h { Hook::Regex => st.len() >= 2, Hook::Range => st.len() >= 3, Hook::Include => st.len() >= 2, _ => true }
+    match h {
+        Hook::Regex => st.len() >= 2, Hook::Range => st.len() >= 3, Hook::Include => st.len() >= 2,
+        // + value invariant: one position per element / field of the processed value
+        Hook::Map | Hook::Filter => st.len() >= 2 && wf_top(*st[st.len() - 1].0),
+        Hook::Reduce => st.len() >= 3 && wf_top(*st[st.len() - 1].0),
+        _ => true,
+    }
 }
 // the hook dispatcher: it adds nothing to and takes nothing from what the hook reports; every hook gets the position of
 // the Runtime op (`trace` the one the translator stored in the hook itself)
@@ -1363,6 +1467,7 @@ pub open spec fn hook_pre(h: Hook, st: Seq<(Rc<Value>, Position)>) -> bool {
                 let n = old(stack)@.len() as int;
                 r matches Err(e) ==> raised_at(e, old(stack)@[n - 1].1) || raised_at(e, old(stack)@[n - 2].1) || raised_at(e, pos) }),
             h is Range ==> (r matches Err(e) ==> raised_at(e, pos)),
+            (h is Map || h is Filter || h is Reduce) ==> (env_ok() ==> (r matches Err(e) ==> functional_err(e, pos))),
 //@   >>>
 //@ end
 //@ extract src/build/opcode/vm.rs :: impl VM :: fn op_runtime
@@ -1372,6 +1477,7 @@ pub open spec fn hook_pre(h: Hook, st: Seq<(Rc<Value>, Position)>) -> bool {
         ensures env_ok() ==> (r matches Err(e) ==> positioned(e)),
             (h is Regex || h is Include) ==> (r matches Err(e) ==> raised_at(e, opnd_pos(*old(self), 1)) || raised_at(e, opnd_pos(*old(self), 2)) || raised_at(e, pos)),
             h is Range ==> (r matches Err(e) ==> raised_at(e, pos)),
+            (h is Map || h is Filter || h is Reduce) ==> (env_ok() ==> (r matches Err(e) ==> functional_err(e, pos))),
 //@   >>>
 //@   mutant runtime_hook_gets_default_position "import_stack, pos, )" => "import_stack, Position::new(0, 0, 0), )" expect op_runtime
 //@ end
